@@ -36,9 +36,9 @@ VerSeqs == {[k |-> "verifier_seq", steps |-> <<St(a, src, "equal"), St(a, src, "
            \cup {[k |-> "verifier_seq", steps |-> <<St("md5", "hasher", "unequal"), St("md5", "hasher", "equal"), St("sha1", "hasher", "unequal"), St("sha1", "hasher", "equal")>>]}
 \* one hasher, every sequence of up to LifeLen operations: write 1 / 63 / 65 / 129 bytes, Sum through the pointer,
 \* entry built from the hasher by value - the hasher is used again after each
-LifeOps == {[op |-> "w", n |-> n] : n \in {1, 63, 65, 129}} \cup {[op |-> "ws", n |-> 7]} \cup {[op |-> "s", n |-> 0], [op |-> "e", n |-> 0]}
+LifeOps == {[op |-> "w", n |-> n] : n \in {1, 63, 65, 129}} \cup {[op |-> "ws", n |-> 7]} \cup {[op |-> "s", n |-> 0], [op |-> "e", n |-> 0], [op |-> "sp", n |-> 0]}
 LifeSeqs == UNION {[1..m -> LifeOps] : m \in 2..LifeLen}
 Life == {[k |-> "hasher_life", alg |-> a, ops |-> o] : a \in Algs,
-            o \in {q \in LifeSeqs : \E i \in 1..Len(q) : q[i].op \in {"s", "e"}}}
+            o \in {q \in LifeSeqs : \E i \in 1..Len(q) : q[i].op \in {"s", "e", "sp"}}}
 ASSUME Emit(SetToSeq(HWok \cup HRok \cup Ver) \o SetToSeq(VerSeqs) \o SetToSeq(Life) \o SetToSeq(VerReuse))
 =============================================================================
